@@ -256,8 +256,18 @@ func (v *srvVersion) defStr() string {
 	}
 	_, mb := v.pathAnswer("meta")
 	_, jb := v.pathAnswer("json")
-	return fmt.Sprintf("%d %d %d %d %d %d %d %d %d %d %s %s %d %d %s %s", v.id, v.name, v.tag, a.H.MinZoom, a.H.MaxZoom, req, a.H.RootOff, a.H.RootLen, a.H.LeafOff, a.H.DataOff, a.dirsStr(), hx(a.Bytes),
-		a.H.MetaOff, a.H.MetaLen, hx(mb), hx(jb))
+	return fmt.Sprintf("%d %d %d %d %d %d %d %d %d %d %s %s %d %d %s %s %s", v.id, v.name, v.tag, a.H.MinZoom, a.H.MaxZoom, req, a.H.RootOff, a.H.RootLen, a.H.LeafOff, a.H.DataOff, a.dirsStr(), hx(a.Bytes),
+		a.H.MetaOff, a.H.MetaLen, hx(mb), hx(jb), hx([]byte(v.hdrsOf(""))))
+}
+
+// hdrsOf: the content headers a server that only ever saw this version sends with a 200 (tile type and tile compression of ITS header)
+func (v *srvVersion) hdrsOf(kind string) string {
+	if kind != "" {
+		return "application/json|"
+	}
+	ct := map[uint8]string{1: "application/x-protobuf", 2: "image/png", 3: "image/jpeg", 4: "image/webp", 5: "image/avif"}[v.arch.H.TileType]
+	ce := map[uint8]string{2: "gzip", 3: "br", 4: "zstd"}[v.arch.H.TileComp]
+	return ct + "|" + ce
 }
 
 // answerOf: what an uncached, single-version lookup answers (the harness's own reader over its own ground truth)
@@ -277,6 +287,7 @@ func (v *srvVersion) answerOf(z, x, y uint64, ext int) (int, []byte) {
 }
 
 type srvReq struct {
+	hdrs       string // Content-Type|Content-Encoding of the response
 	kind       string // "" = tile request, "meta" = /name/metadata, "json" = /name.json
 	rid        int
 	name       int
@@ -364,7 +375,7 @@ func (sr *srvRun) observe() string {
 	for _, r := range sr.doneCh {
 		body := "-" // bodies of data-less answers are error texts: not part of the observable
 		if r.status == 200 {
-			body = hx(r.body)
+			body = hx(r.body) + ":" + r.hdrs
 		}
 		dn = append(dn, fmt.Sprintf("%d:%s", r.status, body)) // without the request id: readers blocked in identical calls are interchangeable
 		r.endStep = sr.step
@@ -404,9 +415,10 @@ func (sr *srvRun) start(name int, z, x, y uint64, ext int) {
 	path := fmt.Sprintf("/a%d/%d/%d/%d.%s", name, z, x, y, extNames[ext])
 	atomic.AddInt64(&sr.gate.activity, 1)
 	go func() {
-		st, _, body := sr.srv.Get(context.Background(), path)
+		st, hd, body := sr.srv.Get(context.Background(), path)
 		sr.mu.Lock()
 		r.status, r.body, r.done = st, body, true
+		r.hdrs = hd["Content-Type"] + "|" + hd["Content-Encoding"]
 		sr.doneCh = append(sr.doneCh, r)
 		sr.mu.Unlock()
 		atomic.AddInt64(&sr.gate.activity, 1)
@@ -426,9 +438,10 @@ func (sr *srvRun) startPath(name int, kind string) {
 	}
 	atomic.AddInt64(&sr.gate.activity, 1)
 	go func() {
-		st, _, body := sr.srv.Get(context.Background(), path)
+		st, hd, body := sr.srv.Get(context.Background(), path)
 		sr.mu.Lock()
 		r.status, r.body, r.done = st, body, true
+		r.hdrs = hd["Content-Type"] + "|" + hd["Content-Encoding"]
 		sr.doneCh = append(sr.doneCh, r)
 		sr.mu.Unlock()
 		atomic.AddInt64(&sr.gate.activity, 1)
@@ -546,7 +559,7 @@ func (sr *srvRun) checkResponses(allowFaults bool) {
 					continue
 				}
 				st, body := sr.versions[vid].pathAnswer(r.kind)
-				if st == r.status && bytes.Equal(body, r.body) {
+				if st == r.status && bytes.Equal(body, r.body) && (st != 200 || r.hdrs == sr.versions[vid].hdrsOf(r.kind)) {
 					ok = true
 				}
 			}
@@ -567,7 +580,7 @@ func (sr *srvRun) checkResponses(allowFaults bool) {
 					continue
 				}
 				st, body := sr.versions[vid].answerOf(r.z, r.x, r.y, r.ext)
-				if st == r.status && (st != 200 || bytes.Equal(body, r.body)) {
+				if st == r.status && (st != 200 || (bytes.Equal(body, r.body) && r.hdrs == sr.versions[vid].hdrsOf(""))) {
 					return true
 				}
 			}
@@ -576,7 +589,7 @@ func (sr *srvRun) checkResponses(allowFaults bool) {
 		switch {
 		case r.status == 200:
 			if !matches(sr.versionsDuring(r.name, r.startStep, r.endStep)) {
-				sr.viol = append(sr.viol, fmt.Sprintf("request %d (a%d %d/%d/%d) answered 200 with bytes %s that no single version current during the request gives", r.rid, r.name, r.z, r.x, r.y, trunc(hx(r.body))))
+				sr.viol = append(sr.viol, fmt.Sprintf("request %d (a%d %d/%d/%d) answered 200 with bytes %s and content headers %s that no single version current during the request gives", r.rid, r.name, r.z, r.x, r.y, trunc(hx(r.body)), r.hdrs))
 			}
 		case r.status == 204 || r.status == 404 || r.status == 400:
 			if !matches(sr.versionsUpTo(r.name, r.endStep)) {
